@@ -202,7 +202,7 @@ func (r *objectSetPhasesReconciler) reconcile(
 		controllerOfAll []corev1alpha1.ControlledObjectReference
 		firstFailure    controllers.ProbingResult
 	)
-	for _, phase := range objectSet.GetPhases() {
+	for i, phase := range objectSet.GetPhases() {
 		controllerOf, probingResult, err := r.reconcilePhase(
 			ctx, objectSet, phase, probe, previous)
 		if err != nil {
@@ -215,6 +215,10 @@ func (r *objectSetPhasesReconciler) reconcile(
 		if !probingResult.IsZero() {
 			if !objectSet.IsSpecPaused() {
 				// break on first failing probe
+				// Remote phases behind it may exist from an earlier rollout: keep reporting them.
+				if err := r.observeRemotePhases(ctx, objectSet, objectSet.GetPhases()[i+1:]); err != nil {
+					return nil, controllers.ProbingResult{}, err
+				}
 				return controllerOfAll, probingResult, nil
 			}
 
@@ -228,6 +232,29 @@ func (r *objectSetPhasesReconciler) reconcile(
 	}
 
 	return controllerOfAll, firstFailure, nil
+}
+
+type remotePhaseObserver interface {
+	Observe(
+		ctx context.Context, objectSet adapters.ObjectSetAccessor,
+		phase corev1alpha1.ObjectSetTemplatePhase,
+	) error
+}
+
+func (r *objectSetPhasesReconciler) observeRemotePhases(
+	ctx context.Context, objectSet adapters.ObjectSetAccessor,
+	phases []corev1alpha1.ObjectSetTemplatePhase,
+) error {
+	observer, ok := r.remotePhase.(remotePhaseObserver)
+	if !ok {
+		return nil
+	}
+	for _, phase := range phases {
+		if err := observer.Observe(ctx, objectSet, phase); err != nil {
+			return err
+		}
+	}
+	return nil
 }
 
 func (r *objectSetPhasesReconciler) reconcilePhase(
